@@ -127,6 +127,14 @@ FullFails(e) ==
           /\ DescOf(e.sends[s2].s) \notin (safe \cup drawn)
        THEN {<<"C11", "walks-into-mate", D(e.infos[l2].raw)>>} ELSE {})
       \cup
+      \* "once its second iteration has finished": whatever the search hands over from then on is what it would play if the
+      \* clock ran out at that moment, so every later board must avoid the mate in one as well (a correct search cannot
+      \* accept such a move: it scores -(MATE-2) against the safe move already held)
+      (IF e.tag = "mate" /\ Completed(e.infos, 2) /\ l2 # 0 /\ s2 # 0 /\ mate1 = {} /\ safe # {}
+          /\ \E j \in (s2 + 1)..Len(e.sends) : DescOf(e.sends[j].s) \notin (safe \cup drawn)
+       THEN {<<"C11", "walks-into-mate-after-iteration-2",
+               D(<<e.cmd, e.sends[CHOOSE j \in (s2 + 1)..Len(e.sends) : DescOf(e.sends[j].s) \notin (safe \cup drawn)].txt>>)>>} ELSE {})
+      \cup
       \* the search gave up by itself (the clock never expired) after it had entered its second iteration: what it handed
       \* over last is its choice with all the time in the world, and a choice that walks into a mate in one although a safe
       \* move exists is not excused by the iteration never having been finished
